@@ -375,7 +375,7 @@ def arg_of(ex, p, callee, argname):
     for ev in reversed(p.events):
         if ev[0].endswith(cs):
             return ev[1][an]
-    raise KeyError("no call of %s on this path" % cs)
+    return VDyn(V.fresh("nocall", Val))        # no such call on this path: an arbitrary value
 
 
 @REG.specfunc()
